@@ -51,6 +51,24 @@ void add_fault(const Fault& f);
 const std::vector<Fault>& faults();
 uint64_t faults_fired_total();
 
+// ---- a simulated child process behind pipe()/fork()/waitpid() (the Reader's "curl" for URL input)
+struct ChildSpec {
+    std::string data;                 // what the child writes to its stdout (the pipe)
+    size_t write_limit = static_cast<size_t>(-1);   // stops after this many bytes (server closed the connection)
+    int exit_code = 0;                // exit status after writing (non-zero: the transfer failed)
+    int chunk_mode = 0;               // 0: one write, 1: fixed chunk, 2: random lengths
+    size_t chunk = 0;
+    bool tiny_writes = true;          // chunk_mode 2 may use writes of 1..16 bytes
+    size_t pipe_capacity = 65536;
+    bool fork_fails = false;          // fork() returns EAGAIN
+};
+void set_child(const ChildSpec& spec);    // enables pipe()/fork()/waitpid() simulation for this run
+std::string last_pipe_path();             // pseudo path of the last pipe (for read_calls())
+size_t children_started();
+size_t children_running();                // not yet exited
+size_t children_unreaped();               // exited or not, never waited for (zombies)
+int last_child_status();
+
 // first-error bookkeeping for oracles: sequence number of the first hard fault returned to the caller
 uint64_t first_fault_event();
 
